@@ -14,7 +14,12 @@ RULE = ("histories of 20-90 Vgroup operations on one file (Vattach(-1)/Vattach/V
         "Vgetname/Vgetclass/Vinquire/Visvg/Visvs/Vlone/VSlone/Vgetid/VSgetid/Vfind/Vfindclass/VSfind/VSfindclass/"
         "Vgetvgroups (arrays and count-only)/VSgetvdatas/VSofclass (file id and vgroup id, incl. internal and chunk-table "
         "classes)/Ventries/VQuerytag/Vgisinternal/Vflocate interleaved, VHmakegroup with duplicate pairs (adjacent, apart, "
-        "same ref under another tag), reopen through Vfinish+Hclose and through Vclose/Vopen, through still-open handles and after detach (in random order) and reopen; five "
+        "same ref under another tag), reopen through Vfinish+Hclose and through Vclose/Vopen; names, classes and lookup "
+        "keys drawn from near-miss string families (proper prefixes, one byte more / fewer, last byte changed, strings "
+        "agreeing on the first 5/6/7/12/13/14/63/64/65 bytes -- lengths of the library's own class names, of the "
+        "chunk-table prefix and the legacy name limit -- and differing right after), renames to near misses of the "
+        "current value (records shrinking / growing by 1-3 bytes), a final lookup of every existing name and class "
+        "through every lookup routine, through still-open handles and after detach (in random order) and reopen; five "
         "generator profiles (edit, growth, names, hierarchy, codec); all choices from one PRNG (VERIF_SEED); a light "
         "shadow state only steers weights; reference numbers are taken from the library and only checked for "
         "freshness.  A history is non-trivial when it edits a member list and reads it back after a reopen; "
@@ -53,6 +58,30 @@ def rname(r, long_=False):
     return bytes(r.randrange(1, 256) for _ in range(n))
 
 
+def siblings(s, maxlen=400):
+    """near misses of a byte string: the string itself, proper prefixes, one byte more, last byte changed, and strings
+    that agree with it on the first 5/6/7/12/13/14 bytes (the lengths of the library's own class names and of the
+    chunk-table prefix) or 63/64/65 bytes (the legacy name limit) and differ right after -- what a prefix comparison
+    confuses with the original"""
+    out = [s]
+    if s:
+        out += [s[:-1], s[:-1] + bytes([(s[-1] % 120) + 1]), s + b"x", s + b"_2", s[:max(1, len(s) // 2)]]
+    for k in (5, 6, 7, 12, 13, 14, 63, 64, 65):
+        if len(s) > k:
+            out += [s[:k], s[:k] + bytes([(s[k] % 120) + 2]) + s[k + 1:], s[:k] + b"_max", s[:k] + b"_min"]
+    return [x for x in out if x and 0 not in x and len(x) <= maxlen]
+
+
+def string_family(r):
+    """the names / classes / queries of one history are drawn from a few such families"""
+    fam = set()
+    for L in r.sample([3, 6, 7, 12, 13, 14, 18, 30], 2):
+        fam |= set(siblings(bytes(r.randrange(97, 123) for _ in range(L)), 60))
+    for x in r.sample(INTERNAL + INTERNAL_VS, 3):
+        fam |= set(siblings(x, 60))
+    return sorted(fam)
+
+
 class Shadow:
     def __init__(self):
         self.objs = {}        # label -> dict(kind, alive, members(list of (tag, reftoken)), name, cls)
@@ -83,6 +112,34 @@ def gen_history(r, name, profile):
     w = PROFILES[profile]
     kinds = ["new", "att", "det", "name", "add", "many", "ins", "del", "vdel", "vsnew", "vsdel", "reopen", "obs"]
     long_names = profile == "names"
+    fam = string_family(r)
+
+    # stems of the lengths at which the library's comparisons switch from "whole string" to "prefix": names built on
+    # one stem agree on exactly that many bytes and differ afterwards
+    stems = {k: bytes(r.randrange(97, 123) for _ in range(k)) for k in (5, 6, 7, 12, 13, 14, 63, 64, 65)}
+    stems[13] = r.choice([stems[13], b"_HDF_CHK_TBL_"])
+
+    def fname(long_=False):
+        x = r.random()
+        if long_ and x < 0.25:      # vgroup names only: the legacy 64-byte limit
+            return stems[r.choice([63, 64, 64, 65])] + r.choice([b"", b"a", b"b", b"_tail_one", b"_tail_two"])
+        if x < 0.3:
+            return stems[r.choice([5, 6, 7, 12, 13, 13, 13, 14])] + r.choice([b"", b"a", b"b", b"_min", b"_max", b"_2m_max"])
+        if x < 0.5:
+            return r.choice(fam)
+        return rname(r, long_)
+
+    def query(existing, long_=False):
+        """a lookup key: an existing value, a near miss of one, a member of the history's families, or random"""
+        x = r.random()
+        existing = [e for e in existing if e]
+        if existing and x < 0.35:
+            return r.choice(existing)
+        if existing and x < 0.7:
+            return r.choice(siblings(r.choice(existing)))
+        if x < 0.9:
+            return r.choice(fam)
+        return rname(r, long_) or b"q"
 
     def free_g():
         c = [s for s in range(12) if s not in sh.gh]
@@ -143,7 +200,7 @@ def gen_history(r, name, profile):
                 if c == 13:
                     L.append("vsgetvdatasg %d %d %d" % (h, r.choice([0, 0, 0, 1, 2, 5]), r.choice([0, 1, 2, 3, 10])))
                 elif c == 14:
-                    q = r.choice(vcls) if vcls and r.random() < 0.7 else r.choice(INTERNAL_VS + [b"zz"])
+                    q = query(vcls)
                     L.append("vsofclassg %d %s %d %d" % (h, hexs(q), r.choice([0, 0, 0, 1, 2]), r.choice([0, 1, 2, 10])))
                 elif c == 15:
                     L.append("countvgroupsg %d %d" % (h, r.choice([0, 0, 1, 2, 4])))
@@ -193,7 +250,7 @@ def gen_history(r, name, profile):
             if c == 12:
                 L.append("vsgetvdatasf %d %d" % (r.choice([0, 0, 0, 1, 2, 7]), r.choice([0, 1, 2, 3, 10, 40])))
             elif c == 13:
-                q = r.choice(vcls) if vcls and r.random() < 0.7 else r.choice(INTERNAL_VS + [b"zz"])
+                q = query(vcls)
                 L.append("vsofclassf %s %d %d" % (hexs(q), r.choice([0, 0, 0, 1, 2]), r.choice([0, 1, 2, 10])))
             elif c == 14:
                 L.append("countvgroupsf %d" % r.choice([0, 0, 0, 1, 3]))
@@ -215,16 +272,13 @@ def gen_history(r, name, profile):
         elif c in (6, 7):
             gl = sh.alive("g")
             attr = r.choice(["name", "cls"])
-            if gl and r.random() < 0.75:
-                nm = sh.objs[r.choice(gl)][attr]
-            else:
-                nm = rname(r, long_names)
+            nm = query([sh.objs[g_][attr] for g_ in gl], long_names)
             if nm:
                 L.append("%s %s" % ("find" if attr == "name" else "findclass", hexs(nm)))
         elif c == 8:
             sl = sh.alive("s")
             attr = r.choice(["name", "cls"])
-            nm = sh.objs[r.choice(sl)][attr] if sl and r.random() < 0.75 else rname(r)
+            nm = query([sh.objs[v_][attr] for v_ in sl])
             if nm:
                 L.append("%s %s" % ("vsfind" if attr == "name" else "vsfindclass", hexs(nm)))
         elif c == 9:
@@ -248,6 +302,25 @@ def gen_history(r, name, profile):
                 L.extend(["vsgetvdatasg 15 0 64", "getvgroupsg 15 0 64"])
             L.append("vgdetach 15")
         L.extend(["iter", "vsiter", "getvgroupsf 0 64", "vsgetvdatasf 0 64"])
+        if final:
+            # every existing name and class is looked up once, through every lookup routine
+            seen = set()
+            for k in sh.alive("s"):
+                o = sh.objs[k]
+                if o["cls"] and ("c", o["cls"]) not in seen:
+                    seen.add(("c", o["cls"]))
+                    L.extend(["vsofclassf %s 0 64" % hexs(o["cls"]), "vsfindclass %s" % hexs(o["cls"])])
+                if o["name"] and ("n", o["name"]) not in seen:
+                    seen.add(("n", o["name"]))
+                    L.append("vsfind %s" % hexs(o["name"]))
+            for k in sh.alive("g"):
+                o = sh.objs[k]
+                if o["cls"] and ("gc", o["cls"]) not in seen:
+                    seen.add(("gc", o["cls"]))
+                    L.append("findclass %s" % hexs(o["cls"]))
+                if o["name"] and ("gn", o["name"]) not in seen:
+                    seen.add(("gn", o["name"]))
+                    L.append("find %s" % hexs(o["name"]))
         if final or r.random() < 0.25:
             L.extend(["lone 64", "vslone 64"])
 
@@ -286,8 +359,8 @@ def gen_history(r, name, profile):
                     mem.append((tagpick(), mem[-1][1]))          # same ref under another tag
                 else:
                     mem.append(r.choice(pool) if r.random() < 0.5 else (tagpick(), reftok()))
-            nm = None if r.random() < 0.2 else rname(r, long_names)
-            cl = None if r.random() < 0.4 else (r.choice(INTERNAL) if r.random() < 0.15 else rname(r))
+            nm = None if r.random() < 0.2 else fname(long_names)
+            cl = None if r.random() < 0.4 else (r.choice(INTERNAL) if r.random() < 0.15 else fname())
             L.append("vhmakegroup %s %s =%d%s" % ("~" if nm is None else hexs(nm), "~" if cl is None else hexs(cl), lab,
                                                   "".join(" %d %s" % p for p in mem)))
             sh.objs[lab] = dict(kind="g", alive=True, members=list(mem), name=nm or b"", cls=cl or b"", acc=False)
@@ -330,10 +403,13 @@ def gen_history(r, name, profile):
             if not ws:
                 continue
             h = r.choice(ws)
-            nm = rname(r, long_names)
+            nm = fname(long_names)
             if r.random() < 0.12:
                 nm = r.choice(INTERNAL) + (b"" if r.random() < 0.5 else b"x")
             which = r.choice(["name", "cls"])
+            cur = sh.objs[sh.gh[h][0]][which]
+            if cur and r.random() < 0.4:
+                nm = r.choice(siblings(cur))          # a near miss of the current value: the record shrinks / grows by 1-3 bytes
             L.append("%s %d %s" % ("setname" if which == "name" else "setclass", h, hexs(nm)))
             sh.objs[sh.gh[h][0]][which] = nm
         elif k == "add":
@@ -433,7 +509,11 @@ def gen_history(r, name, profile):
                 continue
             lab = sh.next
             sh.next += 1
-            nm, cl = rname(r) or b"v", rname(r)
+            nm, cl = fname() or b"v", fname()
+            if sh.alive("s") and r.random() < 0.35:
+                oc = sh.objs[r.choice(sh.alive("s"))]["cls"]
+                if oc:
+                    cl = r.choice(siblings(oc, 60))   # a second vdata whose class is a near miss of an existing one
             if r.random() < 0.3:
                 cl = r.choice(INTERNAL_VS) + (b"" if r.random() < 0.6 else b"7")
             if r.random() < 0.3 and sh.alive("s"):
